@@ -158,7 +158,7 @@ def _run_one(args) -> Dict[str, Any]:
                    k.get("construct") == v.construct for k in known):
                 continue
             fired.append(v.rule)
-        floor_errs = rep.floors()
+        floor_errs = rep.floors() + ["undecided: %s %s" % (u["rule"], u["message"][:80]) for u in rep.undecided_list]
         return {"name": name, "status": "ran", "fired": sorted(set(fired)), "benign": benign,
                 "expect": list(expect), "floor_errors": floor_errs,
                 "first": (rep.violations[0].where + " " + rep.violations[0].message)[:200]
